@@ -166,6 +166,23 @@ def const_expr(rng, depth=1):
 
 
 def rand_lin(rng, P, depth):
+    """a linear expression; with some probability an *already built* compound sub-expression object of this
+    problem is reused (DAG sharing: the same Python object at several places of the objective / constraints,
+    under different multipliers and signs on the path)"""
+    from optyx.core.expressions import Constant, Variable
+
+    made = getattr(P, "made", None)
+    if made is None:
+        made = P.made = []
+    if made and depth >= 0 and rng.random() < 0.14:
+        return rng.choice(made)
+    e = _rand_lin_fresh(rng, P, depth)
+    if not isinstance(e, (Constant, Variable)) and len(made) < 16:
+        made.append(e)
+    return e
+
+
+def _rand_lin_fresh(rng, P, depth):
     """a linear expression written in one of the styles the API offers"""
     from optyx.core.expressions import BinaryOp, Constant, UnaryOp
     from optyx.core import vectors as V
@@ -400,6 +417,120 @@ def fixed_problems(rng):
     return out
 
 
+def deep_problems(rng, thorough):
+    """objectives / constraints accumulated term by term to depth 399 / 400 / 401 / 450 / 900 (left-deep and
+    zig-zag, i.e. the accumulator alternately on the left and on the right), with and without *shared* compound
+    sub-expression objects (scalar and vector `fee` terms, whole shared sub-chains) placed under different signs
+    and multipliers"""
+    from optyx import Problem, Variable, VectorVariable
+    from optyx.core.expressions import BinaryOp, Constant, UnaryOp
+
+    out = []
+    depths = [399, 400, 401, 450, 900] + ([650, 930] if thorough else [])
+    reps = 3 if thorough else 1
+    for d in depths:
+        for shape in ("left", "zigzag"):
+            for sharing in ("none", "fee", "fee-vec", "subchain", "nested"):
+                for _ in range(reps):
+                    n = rng.randint(2, 5)
+                    x = VectorVariable("x", n, lb=0, ub=8)
+                    y, z = Variable("y", lb=-1), Variable("z", ub=3.0)
+                    cs = np.array([dy(rng) for _ in range(n)], dtype=float)
+                    fees = []
+                    if sharing in ("fee", "nested"):
+                        fees.append(2 * y + 3 * z - 4)
+                        fees.append(-(y - 0.5))
+                    if sharing in ("fee-vec", "nested"):
+                        fees.append(cs @ x - 1.5)
+                        fees.append(x.sum() * 0.5)
+                    if sharing == "nested":
+                        inner = fees[0] + fees[2]
+                        fees.append(inner / 2 - fees[0])          # shared objects inside a shared object
+                    marks = sorted(rng.sample(range(d), min(d, 6))) if fees else []
+
+                    def term(i):
+                        k = i % 6
+                        v = x[i % n]
+                        if k == 0: return dy(rng) * v
+                        if k == 1: return v * Constant(p2(rng))
+                        if k == 2: return Constant(dy(rng))
+                        if k == 3: return v / 2
+                        if k == 4: return -(y if i % 4 else z)
+                        return (Constant(2) + 1) * v
+
+                    def grow(acc, lo, hi):
+                        for i in range(lo, hi):
+                            t = term(i)
+                            if i in marks:
+                                f = rng.choice(fees)
+                                t = rng.choice([lambda: f, lambda: 2 * f, lambda: f / 4, lambda: -f, lambda: f + t, lambda: t - f])()
+                            minus = rng.random() < 0.3
+                            on_right = shape == "zigzag" and i % 5 == 0
+                            if on_right:
+                                acc = BinaryOp(t, acc, "-" if minus else "+")
+                            else:
+                                acc = BinaryOp(acc, t, "-" if minus else "+")
+                            if i % 97 == 96:
+                                acc = rng.choice([lambda: UnaryOp(acc, "neg"), lambda: acc * 0.5, lambda: 2 * acc, lambda: acc / 2])()
+                        return acc
+
+                    start = fees[0] if fees else x[0]
+                    if sharing == "subchain":
+                        half = grow(y + 1, 0, d // 2)                 # the same deep object used twice below
+                        e = grow(half, d // 2, d - 2)
+                        e = (e - half) + 3 * half
+                    else:
+                        e = grow(start, 0, d - (2 if fees else 0))
+                        if fees:
+                            e = (e + fees[0]) - fees[-1]              # first occurrence was the innermost node
+                    other = grow(x[0] + 1, 0, 5)
+                    role = rng.choice(["obj", "con", "both"])
+                    P = Problem()
+                    if role in ("obj", "both"):
+                        (P.minimize if rng.random() < 0.5 else P.maximize)(e)
+                    else:
+                        P.minimize(other)
+                    if role in ("con", "both"):
+                        s = rng.choice(["<=", ">=", "=="])
+                        rhs = rng.choice([lambda: 3.0, lambda: other, lambda: fees[0] if fees else 1.0])()
+                        P.subject_to((e <= rhs) if s == "<=" else (e >= rhs) if s == ">=" else e.eq(rhs))
+                        if fees:
+                            P.subject_to(fees[0] - fees[-1] >= -2)    # the shared objects also stand alone elsewhere
+                    else:
+                        P.subject_to(x.sum() <= 4)
+                    out.append((f"deep:{d}:{shape}:{sharing}:{role}", P))
+    return out
+
+
+def shared_shallow_problems(rng):
+    """the same compound object at several places of shallow expressions (every depth 1..4 of the sharing point)"""
+    from optyx import Problem, Variable, VectorVariable
+    from optyx.core.expressions import Constant
+
+    out = []
+    for n in (1, 3):
+        x = VectorVariable("x", n, lb=0)
+        y, z = Variable("y"), Variable("z", lb=-2.0)
+        c = np.array([1.0, -2.0, 0.5][:n])
+        fees = [("scalar", lambda: 2 * y + 3 * z - 4), ("vec", lambda: c @ x - 1.5), ("sum", lambda: x.sum() + y),
+                ("neg", lambda: -(y - 0.5)), ("lc(x+1)", lambda: c @ (x + 1)), ("kexpr", lambda: (Constant(2) + 3) * z + 1)]
+        forms = [("f+f", lambda f, t: f + f), ("f-f", lambda f, t: f - f), ("f+t+f", lambda f, t: f + t + f),
+                 ("2f-(t-f)", lambda f, t: 2 * f - (t - f)), ("-(f)+f/2", lambda f, t: -f + f / 2), ("(f+t)-(f-t)", lambda f, t: (f + t) - (f - t)),
+                 ("((t+f)*2+f)/4-f", lambda f, t: ((t + f) * 2 + f) / 4 - f), ("(f+1)**1+f", lambda f, t: (f + 1) ** 1 + f),
+                 ("k*(f+f)", lambda f, t: (Constant(1) + 1) * (f + f)), ("t-(t-(t-(f+f)))", lambda f, t: t - (t - (t - (f + f))))]
+        for fn, mkf in fees:
+            for gn, g in forms:
+                f = mkf()
+                t = 3 * x[0] - z
+                e = g(f, t)
+                for s in ("<=", ">=", "=="):
+                    P = Problem().minimize(e) if s != ">=" else Problem().maximize(e)
+                    lhs = g(f, t)                                   # a second tree sharing the same `f` and `t` objects
+                    P.subject_to((lhs <= f) if s == "<=" else (lhs >= 2) if s == ">=" else lhs.eq(t))
+                    out.append((f"shared:{fn}:{gn}:n{n}:{s}", P))
+    return out
+
+
 # ----------------------------------------------------------------------------- oracle on the real code
 
 
@@ -466,6 +597,119 @@ def lp_oracle(P, lp, rng, tag):
     return fails
 
 
+def dag_dump(P):
+    """the problem as a DAG (object sharing preserved): nodes in children-first order, children by index.
+    Replays need it: a defect may depend on the *same object* occurring twice, which the tree syntax loses."""
+    from optyx.core.expressions import BinaryOp, Constant, UnaryOp, Variable
+    from optyx.core import vectors as V
+
+    nodes, index = [], {}
+    keep = []
+
+    def vec_spec(v):
+        if isinstance(v, V.VectorVariable):
+            return {"vv": v.name, "id": id(v), "vars": [index[id(x)] for x in v._variables]}
+        return {"ve": [index[id(x)] for x in v._expressions]}
+
+    def children(n):
+        if isinstance(n, BinaryOp):
+            return [n.left, n.right]
+        if isinstance(n, UnaryOp):
+            return [n.operand]
+        if isinstance(n, (Constant, Variable)):
+            return []
+        v = getattr(n, "vector", None)
+        if v is None:
+            raise Unsupported(f"dag node {type(n).__name__}")
+        return list(v._variables) if isinstance(v, V.VectorVariable) else list(v._expressions)
+
+    roots = ([P.objective] if P.objective is not None else []) + [c.expr for c in P.constraints]
+    for root in roots:
+        stack = [(root, False)]
+        while stack:
+            n, done = stack.pop()
+            if id(n) in index:
+                continue
+            if not done:
+                stack.append((n, True))
+                for ch in children(n):
+                    if id(ch) not in index:
+                        stack.append((ch, False))
+                continue
+            keep.append(n)
+            if isinstance(n, Constant):
+                d = {"k": "c", "v": rat(n.value)}
+            elif isinstance(n, Variable):
+                d = {"k": "v", "name": n.name, "lb": opt_rat(n.lb), "ub": opt_rat(n.ub)}
+            elif isinstance(n, BinaryOp):
+                d = {"k": "b", "op": n.op, "l": index[id(n.left)], "r": index[id(n.right)]}
+            elif isinstance(n, UnaryOp):
+                d = {"k": "u", "op": n.op, "a": index[id(n.operand)]}
+            elif isinstance(n, V.LinearCombination):
+                d = {"k": "lc", "cs": [rat(t) for t in np.asarray(n.coefficients, dtype=float).tolist()], "vec": vec_spec(n.vector)}
+            elif isinstance(n, V.VectorPowerSum):
+                d = {"k": "ps", "p": rat(n.power), "vec": vec_spec(n.vector)}
+            elif isinstance(n, V.VectorSum):
+                d = {"k": "vs", "vec": vec_spec(n.vector)}
+            else:
+                raise Unsupported(f"dag node {type(n).__name__}")
+            index[id(n)] = len(nodes)
+            nodes.append(d)
+    return {"nodes": nodes, "objective": index[id(P.objective)] if P.objective is not None else None,
+            "sense": "min" if P.sense == "minimize" else "max",
+            "constraints": [[index[id(c.expr)], c.sense] for c in P.constraints]}
+
+
+def dag_rebuild(dag):
+    from optyx import Problem, Variable
+    from optyx.constraints import Constraint
+    from optyx.core.expressions import BinaryOp, Constant, UnaryOp
+    from optyx.core import vectors as V
+
+    num = lambda t: None if t == "none" else float(Fraction(t))
+    objs, vvs = [], {}
+
+    def vec(spec):
+        if "vv" in spec:
+            if spec["id"] not in vvs:
+                vvs[spec["id"]] = V.VectorVariable._from_variables(spec["vv"], [objs[i] for i in spec["vars"]])
+            return vvs[spec["id"]]
+        return V.VectorExpression([objs[i] for i in spec["ve"]])
+
+    byname = {}
+    for d in dag["nodes"]:
+        k = d["k"]
+        if k == "c":
+            o = Constant(num(d["v"]))
+        elif k == "v":
+            o = byname.get(d["name"]) or Variable(d["name"], lb=num(d["lb"]), ub=num(d["ub"]))
+            byname[d["name"]] = o
+        elif k == "b":
+            o = BinaryOp(objs[d["l"]], objs[d["r"]], d["op"])
+        elif k == "u":
+            o = UnaryOp(objs[d["a"]], d["op"])
+        elif k == "lc":
+            o = V.LinearCombination(np.array([num(t) for t in d["cs"]]), vec(d["vec"]))
+        elif k == "ps":
+            o = V.VectorPowerSum(vec(d["vec"]), num(d["p"]))
+        else:
+            o = V.VectorSum(vec(d["vec"]))
+        objs.append(o)
+    P = Problem()
+    if dag["objective"] is not None:
+        (P.minimize if dag["sense"] == "min" else P.maximize)(objs[dag["objective"]])
+    for i, sense in dag["constraints"]:
+        P.subject_to(Constraint(expr=objs[i], sense=sense))
+    return P
+
+
+def dag_payload(P):
+    try:
+        return dag_dump(P)
+    except Exception as ex:  # noqa: BLE001
+        return {"error": f"{type(ex).__name__}: {ex}"[:200]}
+
+
 def problem_payload(P, ids=None):
     ids = ids or Ids()
     try:
@@ -523,7 +767,7 @@ def run(ctx) -> core.Report:
                            "seeded random linear problems (≤ 8 variables, ≤ 5 constraints) in every writing style; "
                            "each expression also extracted under permuted / enlarged variable orders; "
                            "non-trivial = distinct problems for which an LP was extracted")
-    problems = [(t, P) for t, P in fixed_problems(rng)]
+    problems = [(t, P) for t, P in fixed_problems(rng)] + shared_shallow_problems(rng) + deep_problems(rng, thorough)
     n_rand = 12000 if thorough else 1500
     for _ in range(n_rand):
         P, pool, style = rand_problem(rng)
@@ -578,13 +822,13 @@ def run(ctx) -> core.Report:
         lp, ex = extract_real(P)
         impl = lp_text(lp) if lp is not None else err_text(ex)
         model = outs[idx]
-        if impl != model:
+        if impl != model and not isinstance(ex, RecursionError):
             rep.corr_mismatches.append({"tag": tag, "problem": lines[idx][:1500], "impl": impl[:700], "model": model[:700]})
         if lp is not None:
             rep.nontrivial.add(hash(lines[idx]))
             rep.histogram["extracted"] = rep.histogram.get("extracted", 0) + 1
             for f in lp_oracle(P, lp, rng, tag):
-                f.update({"problem": lines[idx], "tag": tag, "extracted": impl[:700]})
+                f.update({"problem": lines[idx], "tag": tag, "extracted": impl[:700], "dag": dag_payload(P)})
                 k = kind_of(P)
                 if k:
                     f["kind"] = k
@@ -594,7 +838,9 @@ def run(ctx) -> core.Report:
         else:
             nm = type(ex).__name__
             rep.histogram["raised:" + nm] = rep.histogram.get("raised:" + nm, 0) + 1
-            if nm not in ERRNAMES:
+            if nm == "RecursionError":
+                rep.skipped["RecursionError of the real extractor (CPython stack limit)"] = rep.skipped.get("RecursionError of the real extractor (CPython stack limit)", 0) + 1
+            elif nm not in ERRNAMES:
                 rep.oracle_failures.append({"what": f"extract raised an unexpected {nm}: {ex}"[:300], "problem": lines[idx], "tag": tag})
         # per-expression functions
         for cmd, e, arg, li in sub:
@@ -658,7 +904,7 @@ def kind_of_expr(e):
 def search(ctx, rep):
     """correspondence / proof broken, nothing failed yet: many more random problems, oracle only"""
     rng = core.Rng(ctx["seed"] + 15485863)
-    pool = [P for _, P in fixed_problems(rng)]
+    pool = [P for _, P in fixed_problems(rng)] + [P for _, P in shared_shallow_problems(rng)] + [P for _, P in deep_problems(rng, False)]
     for _ in range(15000):
         pool.append(rand_problem(rng)[0])
     for P in pool:
@@ -668,7 +914,7 @@ def search(ctx, rep):
         fs = lp_oracle(P, lp, rng, "search")
         if fs:
             f = fs[0]
-            f.update({"problem": problem_payload(P), "extracted": lp_text(lp)[:700]})
+            f.update({"problem": problem_payload(P), "extracted": lp_text(lp)[:700], "dag": dag_payload(P)})
             k = kind_of(P)
             if k:
                 f["kind"] = k
@@ -703,10 +949,14 @@ def rebuild_problem(line):
 def replay(payload) -> bool:
     f = payload["failure"]
     line = f.get("problem")
-    if not line or line.startswith("unsupported"):
+    dag = f.get("dag")
+    if isinstance(dag, dict) and "nodes" in dag:
+        P = dag_rebuild(dag)              # object sharing of the original input restored
+    elif not line or line.startswith("unsupported"):
         print("no rebuildable problem in the replay file")
         return True
-    P = rebuild_problem(line)
+    else:
+        P = rebuild_problem(line)
     lp, ex = extract_real(P)
     if lp is None:
         print("extract raised", type(ex).__name__, ex)
